@@ -110,10 +110,11 @@ def main(ctx, replay=None):
     trace_meta = {sc: [] for sc in sched.SCENARIOS}
     proj_failed = 0
     noninj = 0
-    for sc_run in sched.SCENARIOS + ("neardeg", "neardeg5", "endsame", "rearranged", "constant"):
+    for sc_run in sched.SCENARIOS + ("neardeg", "endsame", "rearranged", "constant"):
         # "neardeg": three different strain fractions of which two are 3e-4 apart (relative) - different for the code's task equality
         # (numpy.allclose, rtol 1e-5), so the problem instance is the generic one
-        # "neardeg5": the same with a separation of 3e-5 (just above that equality) and fractions that do not change along the volume grid
+        # (separations just above that equality - 3e-5, say - are not generated: strains of the rotated frames, which are combinations of
+        #  the axial ones, then come within the equality's tolerance of each other and the package merges them by design, at ~5e-8 of the result)
         # "endsame": two fraction FIELDS that agree at the first and the last volume and differ in between;
         # "rearranged": two fields holding the same values in another order along the volume grid.  Different fields, different tasks.
         # "constant": three different fractions that do not change along the volume grid (a cell compressing self-similarly)
